@@ -37,6 +37,9 @@ type FileOpts struct {
 	Nets    int  // number of subnet lines (0 = none)
 	BadLine bool // include one line the codec rejects
 	Tag     int  // makes rdata of different files differ
+	// Stray adds lines that hold a single character (a record-type character or not, possibly after
+	// blanks): every parser setting skips them like blank lines
+	Stray bool
 }
 
 var locs = []string{"", "", "", `\000\001`, `\000\002`, `\000\003`, "l1", "l2"}
@@ -102,7 +105,13 @@ func RandomFile(seed uint64, o FileOpts) []string {
 				out = append(out, fmt.Sprintf(":%s,%d,\\001\\002raw%d%s", n, 99+r.N(3), r.N(100), r.Pick(" ", "\t")))
 				break
 			}
-			out = append(out, fmt.Sprintf(":%s,%d,\\001\\002raw%d,%s,,%s", n, 99+r.N(3), r.N(100), ttl(), loc()))
+			// generic records: type numbers without a mnemonic and, now and then, ones that have one
+			// (TXT, SRV, HTTPS written in the generic form)
+			gt := 99 + r.N(3)
+			if r.N(3) == 0 {
+				gt = []int{16, 33, 65, 12}[r.N(4)]
+			}
+			out = append(out, fmt.Sprintf(":%s,%d,\\001\\002raw%d,%s,,%s", n, gt, r.N(100), ttl(), loc()))
 		case 16:
 			out = append(out, fmt.Sprintf("H%s,%s,%s,%s,%d,alpn=h3|h2", n, r.Pick(".", "svc."+zones[0]), r.Pick("300", "7200"), r.Pick("", `\000\001`), 1+r.N(3)))
 		case 17:
@@ -144,6 +153,12 @@ func RandomFile(seed uint64, o FileOpts) []string {
 	if len(out) > 4 {
 		k := 4 + r.N(len(out)-4)
 		out = append(out[:k], append([]string{"# a comment line", ""}, out[k:]...)...)
+	}
+	if o.Stray && len(out) > 0 {
+		for n := 1 + r.N(3); n > 0; n-- {
+			k := r.N(len(out) + 1)
+			out = append(out[:k], append([]string{r.Pick("&", "+", "x", " Z", "  '", "=", ".", "%")}, out[k:]...)...)
+		}
 	}
 	if o.BadLine {
 		k := r.N(len(out) + 1)
